@@ -286,3 +286,125 @@ def write_tmp(name, text):
     with open(p, "w") as f:
         f.write(text)
     return p
+
+
+# ---------------------------------------------------------------------------------------------
+# program pipeline: compile-batch (real compiler, in-process per worker) and pyrun (CPython)
+# ---------------------------------------------------------------------------------------------
+def _pool(nworkers, jobs, runner):
+    from concurrent.futures import ThreadPoolExecutor
+    with ThreadPoolExecutor(max_workers=nworkers) as ex:
+        return list(ex.map(runner, jobs))
+
+
+def compile_batch(items, tag, chunk=60, per_item_ms=20000):
+    """items: list of dicts for `mc_core compile-batch` (ids must be unique and file-name safe).
+    Runs worker processes (1 thread each; a fresh process per chunk because the compiler leaks
+    ~7 MB per compile).  A worker that dies marks the first item without a result as
+    status 'abort' / 'hang' and the rest of its chunk is re-run.  Returns {id: result}."""
+    exe, _ = build("mc_core")
+    stage_erg_path()
+    base = os.path.join(BUILD, "cb", tag)
+    shutil.rmtree(base, ignore_errors=True)
+    os.makedirs(base, exist_ok=True)
+    chunks = [items[i:i + chunk] for i in range(0, len(items), chunk)]
+
+    def run_chunk(arg):
+        ci, ch = arg
+        results = {}
+        pending = list(ch)
+        attempt = 0
+        while pending:
+            inp = os.path.join(base, f"c{ci}_{attempt}.in")
+            outp = os.path.join(base, f"c{ci}_{attempt}.out")
+            with open(inp, "w") as f:
+                for it in pending:
+                    f.write(json.dumps(it) + "\n")
+            env = dict(os.environ)
+            env["ERG_PATH"] = os.path.join(BUILD, "erg_path")
+            env.update({"MC_THREADS": "1", "MC_CHUNK": "1000000", "MC_ITEM_CAP_MS": str(per_item_ms)})
+            p = subprocess.run([exe, "compile-batch", inp, outp, os.path.join(base, "w")], env=env,
+                               stdout=subprocess.PIPE, stderr=subprocess.PIPE, text=True)
+            got = {}
+            if os.path.exists(outp):
+                for line in open(outp):
+                    try:
+                        r = json.loads(line)
+                        got[r["id"]] = r
+                    except Exception:
+                        pass
+            results.update(got)
+            os.remove(inp)
+            if os.path.exists(outp):
+                os.remove(outp)
+            if p.returncode == 0:
+                break
+            # first pending item without a result killed the worker
+            rest = [it for it in pending if it["id"] not in got]
+            if not rest:
+                break
+            culprit = rest[0]
+            kind = "hang" if p.returncode == 3 else "abort"
+            results[culprit["id"]] = {"id": culprit["id"], "status": kind, "rc": p.returncode, "stderr": p.stderr[-400:]}
+            pending = rest[1:]
+            attempt += 1
+        return results
+
+    out = {}
+    for r in _pool(NCPU, list(enumerate(chunks)), run_chunk):
+        out.update(r)
+    return out, base
+
+
+def py_run(items, tag, version="3.11", chunk=150):
+    """items: [{'id', 'pyc'|'py'|'code', 'timeout'?}] run under the given interpreter; {id: outcome}."""
+    base = os.path.join(BUILD, "pr", tag + "_" + version)
+    shutil.rmtree(base, ignore_errors=True)
+    os.makedirs(base, exist_ok=True)
+    chunks = [items[i:i + chunk] for i in range(0, len(items), chunk)]
+    script = os.path.join(VERIF, "py", "pyrun.py")
+
+    def run_chunk(arg):
+        ci, ch = arg
+        results = {}
+        pending = list(ch)
+        attempt = 0
+        while pending:
+            inp = os.path.join(base, f"c{ci}_{attempt}.json")
+            outp = os.path.join(base, f"c{ci}_{attempt}.out")
+            with open(inp, "w") as f:
+                json.dump(pending, f)
+            env = dict(os.environ)
+            env["ERG_PATH"] = os.path.join(BUILD, "erg_path")
+            env["PYTHONDONTWRITEBYTECODE"] = "1"
+            env["PYTHONHASHSEED"] = "0"
+            p = subprocess.run([PY[version], script, inp, outp], env=env, stdout=subprocess.PIPE, stderr=subprocess.PIPE, text=True)
+            got = {}
+            if os.path.exists(outp):
+                for line in open(outp):
+                    try:
+                        r = json.loads(line)
+                        got[r["id"]] = r
+                    except Exception:
+                        pass
+            results.update(got)
+            if p.returncode == 0:
+                break
+            rest = [it for it in pending if it["id"] not in got]
+            if not rest:
+                break
+            culprit = rest[0]
+            results[culprit["id"]] = {"id": culprit["id"], "stdout": "", "exc": "INTERPRETER-DIED", "exit": p.returncode, "msg": p.stderr[-300:]}
+            pending = rest[1:]
+            attempt += 1
+        return results
+
+    out = {}
+    for r in _pool(NCPU, list(enumerate(chunks)), run_chunk):
+        out.update(r)
+    return out
+
+
+def outcome(r):
+    """observable behaviour triple"""
+    return (r["stdout"], r["exc"], r["exit"])
